@@ -1157,6 +1157,17 @@ func rulePairUpdate(p *Prog, r *Report) {
 									if st, ok := r2.(*ssa.Store); ok && st.Val == ssa.Value(valP) {
 										events[x.Block()]++
 									}
+									// the member was replaced by the new value before the append: the replacement happens on the edge that
+									// carries the new value into the phi
+									if st, ok := r2.(*ssa.Store); ok {
+										if ph, isPhi := st.Val.(*ssa.Phi); isPhi {
+											for i, e := range ph.Edges {
+												if e == ssa.Value(valP) {
+													events[ph.Block().Preds[i]]++
+												}
+											}
+										}
+									}
 								}
 							}
 						}
@@ -1393,12 +1404,30 @@ func (p *Prog) rebuiltList(fn *ssa.Function, v ssa.Value, valP ssa.Value) bool {
 			if ia, isIA := ref.(*ssa.IndexAddr); isIA {
 				for _, r2 := range *ia.Referrers() {
 					if st, isSt := r2.(*ssa.Store); isSt {
-						if st.Val == valP {
+						member := func(v ssa.Value) bool {
+							if v == valP {
+								return true
+							}
+							// an old member: element of a ranged list
+							if u, isU := v.(*ssa.UnOp); isU {
+								if ia2, isIA2 := u.X.(*ssa.IndexAddr); isIA2 && isRangeIndex(ia2.Index) {
+									return true
+								}
+							}
+							return false
+						}
+						if member(st.Val) {
 							continue
 						}
-						// an old member: element of a ranged list
-						if u, isU := st.Val.(*ssa.UnOp); isU {
-							if ia2, isIA2 := u.X.(*ssa.IndexAddr); isIA2 && isRangeIndex(ia2.Index) {
+						// `if cond { v = value }; nv = append(nv, v)`: the old member or the new value, chosen before the append
+						if ph, isPhi := st.Val.(*ssa.Phi); isPhi {
+							all := len(ph.Edges) > 0
+							for _, e := range ph.Edges {
+								if !member(e) {
+									all = false
+								}
+							}
+							if all {
 								continue
 							}
 						}
